@@ -267,6 +267,18 @@ func genOptLine(r *rng.R, malformed bool) (string, genOpts) {
 		g.maxRep, labels, level, low, g.maxDown, g.maxSnap, g.maxPend, reject, flags, r.Intn(2)), g
 }
 
+// caseKey sometimes changes the case of a store label KEY (Zone / ZONE): PD looks labels up
+// case-insensitively (StoreInfo.GetLabelValue), the configured location labels and constraint keys stay lower-case
+func caseKey(r *rng.R, key string) string {
+	switch r.Pick(88, 7, 5) {
+	case 1:
+		return strings.ToUpper(key[:1]) + key[1:]
+	case 2:
+		return strings.ToUpper(key)
+	}
+	return key
+}
+
 func genStoreLine(r *rng.R, id int, g genOpts, healthy bool) string {
 	st, down, busy, pause, add, rm, ss, rs, pend := 0, 0, 0, 0, 1, 1, 0, 0, 0
 	if !healthy {
@@ -305,22 +317,22 @@ func genStoreLine(r *rng.R, id int, g genOpts, healthy bool) string {
 	rc := pickInt(r, 0, 5, 29, 30, 31, 100)
 	var labels []string
 	if r.Bool(9, 10) {
-		labels = append(labels, "zone:"+pick(r, zoneVals))
+		labels = append(labels, caseKey(r, "zone")+":"+pick(r, zoneVals))
 	}
 	if r.Bool(7, 10) {
-		labels = append(labels, "rack:"+pick(r, rackVals))
+		labels = append(labels, caseKey(r, "rack")+":"+pick(r, rackVals))
 	}
 	if r.Bool(8, 10) {
-		labels = append(labels, "host:"+pick(r, hostVals))
+		labels = append(labels, caseKey(r, "host")+":"+pick(r, hostVals))
 	}
 	if !healthy {
 		if r.Bool(8, 100) {
-			labels = append(labels, "engine:tiflash")
+			labels = append(labels, caseKey(r, "engine")+":tiflash")
 		} else if r.Bool(3, 100) {
 			labels = append(labels, "engine:tikv")
 		}
 		if r.Bool(6, 100) {
-			labels = append(labels, "specialUse:"+pick(r, []string{"hotRegion", "reserved", "other"}))
+			labels = append(labels, caseKey(r, "specialUse")+":"+pick(r, []string{"hotRegion", "reserved", "other"}))
 		}
 		if r.Bool(3, 100) {
 			labels = append(labels, "$dedicated:yes")
